@@ -367,6 +367,11 @@ class Sem(object):
             return set()
         pos = cfg.pos.get(node_id)
         if pos is None:
+            # break / continue / return-without-value are block terminators, not elements
+            for B in cfg.blocks.values():
+                if B.term == node_id and B.id in cfg.reachable():
+                    return self._facts_at_pos(fn, (B.id, len(B.elems)), None, depth)
+        if pos is None:
             # climb to the closest listed ancestor
             n = fn.nodes.get(node_id)
             while n is not None and cfg.pos.get(n.id) is None:
